@@ -97,16 +97,28 @@ def gr_5(ctx, rep):
     rep.ob('GR-5', TOKEN_PY, 'PythonTokenTypes', 'contains_syntax token types',
            syntax_types == {'NAME', 'OP'},
            'token types consulted for reserved strings are %s, expected NAME and OP' % sorted(syntax_types))
-    # _token_to_transition consults reserved_syntax_strings under type_.value.contains_syntax
-    f = ctx.prog.func('parso/parser.py', '_token_to_transition')
-    ok = False
+    # the engine consults reserved_syntax_strings only under <type>.value.contains_syntax: every read of the table in
+    # parso/parser.py (subscript, .get, membership - directly or through a local bound to the table)
     from ..model import xnorm
-    for n in ast.walk(f.node):
-        if isinstance(n, ast.If) and 'contains_syntax' in norm(n.test):
-            ok = any(isinstance(s, ast.Subscript) and 'reserved_syntax_strings' in xnorm(f.node, s.value)
-                     for s in ast.walk(n))
-    rep.ob('GR-5', 'parso/parser.py', '_token_to_transition', 'if type_.value.contains_syntax: reserved lookup',
-           ok, 'reserved-string lookup is no longer guarded by contains_syntax')
+    from ..facts import guards_of
+    pmod = ctx.prog.mod('parso/parser.py')
+    n_reads = 0
+    for f in pmod.funcs.values():
+        for n in walk_own(f.node):
+            read = None
+            if isinstance(n, ast.Subscript) and isinstance(n.ctx, ast.Load) and 'reserved_syntax_strings' in xnorm(f.node, n.value):
+                read = n
+            elif isinstance(n, ast.Call) and isinstance(n.func, ast.Attribute) and n.func.attr == 'get' \
+                    and 'reserved_syntax_strings' in xnorm(f.node, n.func.value):
+                read = n
+            if read is None:
+                continue
+            n_reads += 1
+            ok = any(pol and 'contains_syntax' in norm(t) for t, pol in guards_of(read, f.node))
+            rep.ob('GR-5', 'parso/parser.py', f.qual, 'reserved lookup %s under contains_syntax' % norm(read),
+                   ok, 'reserved-string lookup is no longer guarded by contains_syntax')
+    if not n_reads:
+        raise AnalysisError('GR-5: no read of reserved_syntax_strings found in parso/parser.py')
     exceptions = {'<>'}
     for g in ctx.grammars:
         env = ctx.token_collection(g.version)
